@@ -22,7 +22,10 @@ def small_cab(rng, comp=None, nblocks=None):
         nm = b"f%d.bin" % i
         members.append((nm, whole[cuts[i]:cuts[i + 1]]))
         files.append(dict(name=nm, length=cuts[i + 1] - cuts[i], offset=cuts[i], folder=0))
-    cab, layout = minicab.build([(comp, payloads)], files, data_res=rng.choice([0, 0, 4]))
+    # every optional part of the header now and then: header / folder / data reserve areas
+    cab, layout = minicab.build([(comp, payloads)], files, data_res=rng.choice([0, 0, 4]),
+                                header_res=rng.choice([None, None, b"", b"R" * 24, bytes(rng.randrange(256) for _ in range(rng.choice([1, 100])))]),
+                                folder_res=rng.choice([0, 0, 0, 6]))
     return cab, members, layout
 
 def small_all_formats(rng, n):
@@ -37,9 +40,17 @@ def small_all_formats(rng, n):
 # ------------------------------------------------------------------ vgen-based scenarios
 
 def vgen_case(rng, kind, size="small", **kw):
+    """a random well-formed archive; a generator hiccup (an encoder's internal assertion on an unlucky plan) is retried
+    with fresh random choices - it must not take a check down"""
     import vgen
     mod = __import__("vgen." + kind, fromlist=["random_case"])
-    return mod.random_case(rng, size, **kw)
+    last = None
+    for _ in range(8):
+        try:
+            return mod.random_case(rng, size, **kw)
+        except (AssertionError, ValueError, IndexError, KeyError, ZeroDivisionError) as e:
+            last = e
+    raise RuntimeError(f"vgen.{kind}.random_case failed 8 times in a row: {last!r}")
 
 def file_lines(case):
     return [f"file {n} {b.hex() if b else '-'}" for n, b in case["files"].items()]
@@ -269,3 +280,67 @@ def oab_crc_zero_case(rng, patch=False, kinds=("uncompressed", "verbatim")):
     return {"kind": "oab", "files": files, "members": [{"name": b"out", "data": plain}],
             "meta": {"open": "oabinc" if patch else "oab", "order": order, "nblocks": 2, "layout": layout, "patch": patch,
                      "crcs": [oab.crc(b["data"]) for b in blocks], "blocks": [{"lzx_blocks": [kinds[k % len(kinds)]]} for k in range(2)]}}
+
+
+def chm_huge_lengths(rng, rtable_len=(1 << 32) + 40, file_len_add=1 << 32, which="rtable"):
+    """a CHM that is well formed except for 64-bit length fields above 2^32: the directory entry of one system file
+    (ResetTable / ControlData / SpanInfo / Content) claims `rtable_len` bytes and the header's file length is raised
+    so that "longer than the file" tests pass.  Lengths are read as 64-bit ENCINTs but buffers are sized with ints."""
+    import struct
+    from vgen import chm, lzx, lz
+    FRAME = 32768; rframes = 2; wb = 16
+    rb = rframes * FRAME; n = 2 * rb
+    data = bytes(rng.choice(b"abcdefgh \n") for _ in range(n))
+    toks = lz.greedy_tokens(data, lzx.max_offset(wb), 2, 257, frame=FRAME, reset=rb, rng=rng)
+    frames, tot, info = lzx.lzx_frames(toks, wb, reset_interval=rframes, rng=rng)
+    offs = [0]
+    for fr in frames: offs.append(offs[-1] + len(fr))
+    content = b"".join(frames)
+    sysfiles = [(chm.CONTENT, content), (chm.CONTROL, chm.control_data(2, rframes, wb)), (chm.SPANINFO, struct.pack("<Q", n)),
+                (chm.RTABLE, chm.reset_table(offs[:-1], n, offs[-1], 8))]
+    members = [{"name": b"/a.bin", "section": 1, "offset": 0, "data": data[:10]},
+               {"name": b"/b.bin", "section": 1, "offset": rb + 100, "data": data[rb + 100:rb + 1100]}]
+    s0 = bytearray(); entries = []
+    target = {"rtable": chm.RTABLE, "control": chm.CONTROL, "spaninfo": chm.SPANINFO, "content": chm.CONTENT}[which]
+    for nm, d in sysfiles:
+        entries.append((nm, 0, len(s0), rtable_len if nm == target else len(d))); s0 += d
+    entries += [(m["name"], 1, m["offset"], len(m["data"])) for m in members]
+    f, fields = chm.build(entries, bytes(s0), version=3, chunk_size=4096, density=2)
+    f = bytearray(f)
+    hs0 = struct.unpack_from("<Q", f, 0x38)[0]
+    flen = struct.unpack_from("<Q", f, hs0 + 8)[0]
+    struct.pack_into("<Q", f, hs0 + 8, flen + file_len_add)
+    members.sort(key=lambda m: chm.sort_key(m["name"]))
+    return {"kind": "chm", "files": {"f.chm": bytes(f)}, "members": members, "meta": {"order": ["f.chm"], "directed": "huge-length-" + which}}
+
+
+def chm_mixed_sections(rng, kind="uncompressed"):
+    """a well-formed CHM with one stored (section 0) member between two compressed (section 1) members whose
+    compressed data lies far apart (poorly compressible, so that the second needs input well beyond the
+    decoder's 4096-byte buffer); LZX blocks of the given kind"""
+    import struct
+    from vgen import chm, lzx, lz
+    FRAME = 32768; rframes = 2; wb = 16
+    rb = rframes * FRAME; n = 2 * rb
+    data = bytes(rng.randrange(256) for _ in range(n))
+    toks = [("L", x) for x in data] if kind == "uncompressed" else lz.greedy_tokens(data, lzx.max_offset(wb), 2, 257, frame=FRAME, reset=rb, rng=rng)
+    nb = [(kind, min(FRAME, n - p)) for p in range(0, n, FRAME)]
+    frames, tot, info = lzx.lzx_frames(toks, wb, reset_interval=rframes, blocks=[(kind, rb)] * 2, rng=rng)
+    offs = [0]
+    for fr in frames: offs.append(offs[-1] + len(fr))
+    content = b"".join(frames)
+    plain = bytes(rng.choice(b"plain text ") for _ in range(3000))
+    sysfiles = [(chm.CONTENT, content), (chm.CONTROL, chm.control_data(2, rframes, wb)), (chm.SPANINFO, struct.pack("<Q", n)),
+                (chm.RTABLE, chm.reset_table(offs[:-1], n, offs[-1], 8))]
+    members = [{"name": b"/a.bin", "section": 1, "offset": 0, "data": data[:100]},
+               {"name": b"/b.txt", "section": 0, "offset": None, "data": plain},
+               {"name": b"/c.bin", "section": 1, "offset": 20000, "data": data[20000:50000]},
+               {"name": b"/d.bin", "section": 1, "offset": rb + 7, "data": data[rb + 7:rb + 30007]}]
+    s0 = bytearray(); entries = []
+    for nm, d in sysfiles:
+        entries.append((nm, 0, len(s0), len(d))); s0 += d
+    members[1]["offset"] = len(s0); s0 += plain
+    entries += [(m["name"], m["section"], m["offset"], len(m["data"])) for m in members]
+    f, fields = chm.build(entries, bytes(s0), version=3, chunk_size=4096, density=2)
+    members.sort(key=lambda m: chm.sort_key(m["name"]))
+    return {"kind": "chm", "files": {"f.chm": f}, "members": members, "meta": {"order": ["f.chm"], "directed": "mixed-sections-" + kind}}
